@@ -629,6 +629,7 @@ def gen_C12(rng, tier):
     out = []
     for k in keys(rng, tier) + [rnd_bytes(rng, 32) for _ in range(20 if tier == 'quick' else 500)]:
         out.append(('pubroutes ' + hexb(k), 'routes'))
+        out.append(('scalarseq ' + hexb(k), 'routes/one-scalar-object-in-sequence'))
         out.append(('sk2int ' + hexb(k), 'SkToBigInt'))
         out.append(('public ' + hexb(k), 'Public'))
     for s in [0, 1, L - 1, L, 2**251, 2**252 - 1] + [rng.randrange(2**252) for _ in range(5)]:
